@@ -2,7 +2,7 @@
     that is extracted (coq/extract/parts/c08.txt) and run by harness/props/c08.py and c09.py. *)
 From Coq Require Import List Arith Lia ZArith QArith Qcanon Bool.
 Import ListNotations.
-From PGV Require Import SplineModel SplineTheory SplineQc InterpModel.
+From PGV Require Import CollocRow SplineModel SplineTheory SplineQc InterpModel.
 
 Definition ipq_colloc := ip_colloc Qc spq_ops.
 Definition ipq_nbasis := ip_nbasis Qc spq_ops.
@@ -20,63 +20,71 @@ Definition ipq_quad_from := ip_quad_from Qc spq_ops.
 Definition ipq_quadrature := ip_quadrature Qc spq_ops.
 
 (* ---------------------------------------------------------------------------------------- *)
-(** * the faithful model REFUTES three clauses of C08 / C09 (witnesses computed on Qc; the same inputs
-      fail on the real code, see harness/props/c08.py, c09.py and DESIGN.md section 9) *)
+(** * witnesses computed on Qc (the same inputs are run on the real code by harness/props/c08.py, c09.py) *)
 Definition ipq_z (l : list Z) : list Qc := map (fun z => spq_of z 1) l.
 Definition ipq_q (l : list (Z * Z)) : list Qc := map (fun p => spq_of (fst p) (Z.to_pos (snd p))) l.
 Definition ipq_total (l : list Qc) : Qc := ip_sum Qc spq_ops (length l) (fun i => nth i l (Q2Qc 0)).
 
-(** defect 9.10: periodic space with ncells = degree (accepted by make_knots: len(breaks) > degree).
-    Degree 2 on the breakpoints 0, 1, 2: knots -2..4, Greville points 1/2, 3/2, data (1, 0): the model returns
-    coefficients, but the spline takes the value 34/35 instead of 1 at the first interpolation point: the
-    columns (span-2+s) mod 2, s = 0,1,2, repeat and numpy keeps the last value instead of the sum. *)
+(** periodic space with ncells = degree (accepted by make_knots: len(breaks) > degree).  Degree 2 on the
+    breakpoints 0, 1, 2: knots -2..4, Greville points 1/2, 3/2, data (1, 0).  The columns (span-2+s) mod 2,
+    s = 0,1,2, repeat; with np.add.at (repair 6a5dc09) the two basis values that share a column add up, the row
+    is (1/4, 3/4) and the interpolant takes its data.  Degree 1 on ONE cell (breakpoints 0, 1): row (1), c = u. *)
 Definition ipq_w10_knots := ipq_z [-2; -1; 0; 1; 2; 3; 4]%Z.
 Definition ipq_w10_xs := ipq_q [(1, 2); (3, 2)]%Z.
 Definition ipq_w10_u := ipq_z [1; 0]%Z.
-Theorem ipq_interp_periodic_small_witness :
+Theorem ipq_interp_periodic_small_ok :
   ip_space_ok Qc spq_ops ipq_w10_knots 2 true false = true /\
   ip_nbasis Qc spq_ops ipq_w10_knots 2 true false = 2%nat /\
-  match ip_interp1d Qc spq_ops ipq_w10_knots 2 true false ipq_w10_xs ipq_w10_u with
-  | SpOk c => spq_show_res (ip_eval1d Qc spq_ops ipq_w10_knots 2 false c (nth 0 ipq_w10_xs (Q2Qc 0)))
-              = SpOk (34%Z, 35%positive)
+  match ip_colloc Qc spq_ops 2 ipq_w10_knots 2 true false ipq_w10_xs with
+  | SpOk A => map (map spq_show) A = [[(1%Z, 4%positive); (3%Z, 4%positive)]; [(3%Z, 4%positive); (1%Z, 4%positive)]]
   | _ => False
-  end /\ spq_show (nth 0 ipq_w10_u (Q2Qc 0)) = (1%Z, 1%positive).
+  end /\
+  match ip_interp1d Qc spq_ops ipq_w10_knots 2 true false ipq_w10_xs ipq_w10_u with
+  | SpOk c => map (fun x => spq_show_res (ip_eval1d Qc spq_ops ipq_w10_knots 2 false c x)) ipq_w10_xs
+              = map (fun v => SpOk (spq_show v)) ipq_w10_u
+  | _ => False
+  end /\
+  match ip_interp1d Qc spq_ops (ipq_z [-1; 0; 1; 2]%Z) 1 true false (ipq_z [0]%Z) (ipq_z [7]%Z) with
+  | SpOk c => map spq_show c = [(7%Z, 1%positive); (7%Z, 1%positive)]
+  | _ => False
+  end.
 Proof. vm_compute. repeat split. Qed.
 
-(** hence [ip_interp1d_exact] is false without its hypothesis degree + 1 <= nbasis *)
-Theorem ipq_interp_periodic_small_refuted :
-  ~ (forall (knots : list Qc) (degree : nat) (xs u c : list Qc),
-       ip_space_ok Qc spq_ops knots degree true false = true ->
-       ip_interp1d Qc spq_ops knots degree true false xs u = SpOk c ->
-       forall i, (i < ip_nbasis Qc spq_ops knots degree true false)%nat ->
-       ip_eval1d Qc spq_ops knots degree false c (nth i xs (Q2Qc 0)) = SpOk (nth i u (Q2Qc 0))).
-Proof.
-  intros H. destruct ipq_interp_periodic_small_witness as [Hok [Hnb [Hm Hu]]].
-  destruct (ip_interp1d Qc spq_ops ipq_w10_knots 2 true false ipq_w10_xs ipq_w10_u) as [c| | | |] eqn:E; try contradiction.
-  specialize (H _ _ _ _ _ Hok E 0%nat ltac:(rewrite Hnb; lia)).
-  rewrite H in Hm. cbn [spq_show_res] in Hm. rewrite Hu in Hm. discriminate Hm.
-Qed.
+(** documentation of the PINNED tree (before 6a5dc09): there the row was written by the assignment
+    mat[i, js(span)] = basis, where numpy keeps the LAST value written to a repeated column ([CollocRow.row]).
+    On the same input the first row is (1/8, 3/4) - it does not sum to one, and it differs from the accumulated
+    row (1/4, 3/4) of the model: the interpolant of (1, 0) then took the value 34/35 at x_0 (defect 10 of
+    DESIGN section 9).  [CollocRow.row_dot_is_eval] therefore needs distinct columns; [ip_row_acc_dot] does not. *)
+Example ipq_lww_row :
+  match spq_nu_basis_funs ipq_w10_knots 2 (spq_of 1 2) 2 with
+  | SpOk b =>
+    map (fun k => spq_show (CollocRow.row Qc (Q2Qc 0) (ip_col 2 2 2 true) (fun j => nth j b (Q2Qc 0)) 2 k)) [0; 1]%nat
+      = [(1%Z, 8%positive); (3%Z, 4%positive)] /\
+    map spq_show (ip_row_of Qc spq_ops 2 2 2 true b) = [(1%Z, 4%positive); (3%Z, 4%positive)]
+  | _ => False
+  end.
+Proof. vm_compute. repeat split. Qed.
 
-(** defect 9.6: periodic NON-UNIFORM space.  Degree 1 on the breakpoints 0, 1, 3 (period 3): knots
-    -2, 0, 1, 3, 4, Greville points 0, 1: _build_integrals mirrors integrals[n] = integrals[0] = 1/2 although
-    the wrapped copy of the first hat function covers the LAST cell (true value 1): the weights (1, 3/2) sum
-    to 5/2, not to the period 3; the integral of the interpolant of constant data 1 is reported as 5/2. *)
+(** periodic NON-UNIFORM space.  Degree 1 on the breakpoints 0, 1, 3 (period 3): knots -2, 0, 1, 3, 4, Greville
+    points 0, 1.  With repair 38b0bf4 every unwrapped piece is computed by the same degree-raised formula: the
+    wrapped copy of the first hat function covers the LAST cell and integrates to 1 (the pinned tree mirrored
+    integrals[2] = integrals[0] = 1/2, the weights (1, 3/2) summed to 5/2): integrals (1/2, 3/2, 1), weights
+    (3/2, 3/2), which sum to the period 3. *)
 Definition ipq_w6_knots := ipq_z [-2; 0; 1; 3; 4]%Z.
 Definition ipq_w6_xs := ipq_z [0; 1]%Z.
-Theorem ipq_quadrature_periodic_nonuniform_refuted :
+Theorem ipq_quadrature_periodic_nonuniform_ok :
   ip_space_ok Qc spq_ops ipq_w6_knots 1 true false = true /\
-  (1 + 1 <= ip_nbasis Qc spq_ops ipq_w6_knots 1 true false)%nat /\
   match ip_quadrature Qc spq_ops ipq_w6_knots 1 true false ipq_w6_xs with
-  | SpOk w => map spq_show w = [(1%Z, 1%positive); (3%Z, 2%positive)] /\ spq_show (ipq_total w) = (5%Z, 2%positive)
+  | SpOk w => map spq_show w = [(3%Z, 2%positive); (3%Z, 2%positive)] /\ spq_show (ipq_total w) = (3%Z, 1%positive)
   | _ => False
   end /\
   (* domain length b - a = knots[len-1-p] - knots[p] *)
   spq_show (Qcminus (nth 3 ipq_w6_knots (Q2Qc 0)) (nth 1 ipq_w6_knots (Q2Qc 0))) = (3%Z, 1%positive) /\
   match ip_integrals Qc spq_ops ipq_w6_knots 1 true false with
-  | SpOk ints => map spq_show ints = [(1%Z, 2%positive); (3%Z, 2%positive); (1%Z, 2%positive)]
+  | SpOk ints => map spq_show ints = [(1%Z, 2%positive); (3%Z, 2%positive); (1%Z, 1%positive)]
   | _ => False
   end.
-Proof. vm_compute. repeat split; lia. Qed.
+Proof. vm_compute. repeat split. Qed.
 
 (** defect 9.7: uniform-cubic CLAMPED space with 1 or 2 cells: the three hard-coded edge values overlap.
     One cell on [0,1]: integrals 1/24, 23/24, 23/24, 1/24 sum to 2, the domain has length 1;
